@@ -294,14 +294,14 @@ def _gen_mmi(case):
     # generic axes are drawn from their own stream (seeded from the case rng) independently of the class
     ax = np.random.default_rng(int(rng.integers(0, 2 ** 62)))
     axes = {}
-    mag = draw_magnitude(ax)
+    mag = draw_magnitude(ax, 0.62)
     if mag != 1.0:
         axes['magnitude_not_1'] = 1
         if mag <= 1e-9:
             axes['magnitude_below_1e-9'] = 1
         if mag >= 1e6:
             axes['magnitude_above_1e6'] = 1
-    if ax.random() < 0.15:          # axis (iv): strongly elongated / 1xN / Nx1 images
+    if ax.random() < 0.08:          # axis (iv): strongly elongated / 1xN / Nx1 images
         a, b = int(ax.choice([1, 1, 2, 3])), int(ax.integers(5, 61))
         shape = (a, b) if ax.random() < 0.5 else (b, a)
         axes['shape_elongated'] = 1
@@ -423,16 +423,17 @@ def _gen_mmi(case):
     # axis (iii): dtype / byte order of the value columns (values are first rounded to the representation so
     # that the reference sees exactly the numbers the table holds)
     col_dtype = {}
+    layout_case = ax.random() < 0.12
     for pn in list(pvals):
-        r_ = ax.random()
-        if r_ < 0.08 and pn not in (x_name, y_name):
+        r_ = ax.random() if layout_case else 1.0
+        if r_ < 0.3 and pn not in (x_name, y_name):
             with np.errstate(all='ignore'):
                 v32 = pvals[pn].astype('f4')
             if np.all(np.isfinite(v32)) and np.all((v32 != 0) | (pvals[pn] == 0)):
                 pvals[pn] = v32.astype(float)
                 col_dtype[pn] = 'f4'
                 axes['layout_float32_column'] = 1
-        elif r_ < 0.16:
+        elif r_ < 0.6:
             col_dtype[pn] = '>f8'
             axes['layout_bigendian_column'] = 1
     bkg_unit = unit
@@ -519,7 +520,7 @@ def _gen_mmi(case):
     if bbox_factor is not None:
         kw['bbox_factor'] = bbox_factor
     # axis (ii): equivalent call forms of the arguments (all accepted by the unchanged library)
-    if ax.random() < 0.3:
+    if ax.random() < 0.14:
         if 'model_shape' in kw:
             if np.isscalar(kw_shape):
                 kw['model_shape'] = [np.int64(kw_shape), np.array(kw_shape), np.int32(kw_shape)][int(ax.integers(0, 3))]
@@ -565,7 +566,8 @@ def _mmi(case):
             if par.unit is not None:
                 par._unit = None
         rows_ref = [dict(params={k: _pv(v) for k, v in r['params'].items()}, model_shape=r['model_shape'],
-                         local_bkg=_pv(r['local_bkg'])) for r in rows]
+                         local_bkg=(r['local_bkg'].to_value(unit) if hasattr(r['local_bkg'], 'unit')
+                                    else r['local_bkg'])) for r in rows]
         ref = R.render(shape, model_ref, rows_ref, x_name, y_name, method=method)
         if ref['overlap'].any():
             ref['unit'] = unit
@@ -581,6 +583,12 @@ def _mmi(case):
     case.digest = core.arr_digest(*[np.asarray(_pv(t[c])) for c in t.colnames],
                                   np.asarray(model.parameters)) + core.digest([case.params, sorted(kw.items(), key=str)])
     case.nontrivial = nover >= 2 or (nover >= 1 and nover < info['n'])
+    case.params['magnitude'] = info['mag']
+    case.params['axes'] = sorted(info['axes'])
+    for k_ in info['axes']:
+        case.note('axis_' + k_)
+    if not info['axes']:
+        case.note('axis_none_plain_case')
     array_shape = info['wmode'] != 'bbox'     # keyword / column shapes reach overlap_slices as ndarrays
     geom = [(float(_pv(r['params'][y_name])), float(_pv(r['params'][x_name])), r['model_shape']) for r in rows]
 
@@ -600,16 +608,20 @@ def _mmi(case):
         fl = flags(idx) if fl is None else fl
 
         def f():
-            if not (method == 'integrate' and unit is not None):
-                return make_model_image(shape, model, table, **kw)
             try:
                 return make_model_image(shape, model, table, **kw)
-            except TypeError as exc:
-                import traceback
-                last = traceback.extract_tb(exc.__traceback__)[-1].filename
-                if '/astropy/' in last or '/scipy/' in last:
-                    case.note('integrate_unitful_rejected_by_astropy')
+            except ValueError as exc:
+                if info['bkg_unit_differs'] and 'local_bkg column must have the same' in str(exc):
+                    case.note('equivalent_unit_local_bkg_rejected_as_documented')
                     raise LibRaised from exc
+                raise
+            except TypeError as exc:
+                if method == 'integrate' and unit is not None:
+                    import traceback
+                    last = traceback.extract_tb(exc.__traceback__)[-1].filename
+                    if '/astropy/' in last or '/scipy/' in last:
+                        case.note('integrate_unitful_rejected_by_astropy')
+                        raise LibRaised from exc
                 raise
         return lib_call(case, f, mech, **fl)
 
@@ -854,6 +866,20 @@ def _psfphot(case):
         case.skip('no source placed')
     bkg_level = float(rng.choice([0.0, 0.0, 0.5, 2.0]))
     data = data + bkg_level + rng.normal(0, 0.02, shape)
+    ax = np.random.default_rng(int(rng.integers(0, 2 ** 62)))
+    mag = draw_magnitude(ax, 0.55)          # axis (i): data, init fluxes and local backgrounds share one scale
+    data = data * mag
+    bkg_level *= mag
+    pos = [(x_, y_, f_ * mag) for x_, y_, f_ in pos]
+    if ax.random() < 0.15:                  # axis (iii): memory layout of the image
+        data = np.asfortranarray(data)
+        case.note('axis_layout_fortran_image')
+    if mag != 1.0:
+        case.note('axis_magnitude_not_1')
+        if mag <= 1e-9:
+            case.note('axis_magnitude_below_1e-9')
+    else:
+        case.note('axis_none_plain_case')
     unit = u.Jy if rng.random() < 0.35 else None
     variant = str(rng.choice(['free', 'free', 'fixed_first_off', 'extra_param', 'grouped']))
     psf_fit = psf.copy()
@@ -885,14 +911,14 @@ def _psfphot(case):
     lb_mode = str(rng.choice(['none', 'estimator', 'column']))
     lbe = LocalBackground(5, 9) if lb_mode == 'estimator' else None
     if lb_mode == 'column':
-        lb = np.full(len(pos), bkg_level) + rng.uniform(-.1, .1, len(pos))
+        lb = np.full(len(pos), bkg_level) + rng.uniform(-.1, .1, len(pos)) * mag
         init['local_bkg'] = lb * unit if unit is not None else lb
     grouper = SourceGrouper(8.0) if variant == 'grouped' else None
     use_nddata = rng.random() < 0.25
     data_q = data * unit if unit is not None else data
     data_in = NDData(data, unit=unit) if use_nddata else data_q
     case.params = dict(leg='PSFPhotometry', psf=kind, shape=list(shape), nsrc=len(pos), variant=variant,
-                       unit=str(unit), local_bkg=lb_mode, nddata=use_nddata, fit_shape=fit_shape)
+                       unit=str(unit), local_bkg=lb_mode, nddata=use_nddata, fit_shape=fit_shape, magnitude=mag)
     case.digest = core.arr_digest(data, xs, ys) + core.digest(case.params)
     mech = dict(cls=case.cls, entry='PSFPhotometry', model=kind, variant=variant)
     phot = PSFPhotometry(psf_fit, fit_shape, grouper=grouper, localbkg_estimator=lbe, aperture_radius=4.0)
@@ -926,17 +952,23 @@ def _iterphot(case):
     m = psf.copy()
     m.x_0, m.y_0, m.flux = x + 3.0 * np.cos(ang), y + 3.0 * np.sin(ang), 0.25 * f
     data = data + m(xx, yy) + rng.normal(0, 0.02, shape)
+    ax = np.random.default_rng(int(rng.integers(0, 2 ** 62)))
+    mag = draw_magnitude(ax, 0.55)
+    data = data * mag
+    case.note('axis_magnitude_not_1' if mag != 1.0 else 'axis_none_plain_case')
+    if mag <= 1e-9:
+        case.note('axis_magnitude_below_1e-9')
     unit = u.adu if rng.random() < 0.3 else None
     mode = str(rng.choice(['new', 'all']))
     from photutils.psf import SourceGrouper
     lbe = LocalBackground(6, 10) if rng.random() < 0.4 else None
-    finder = DAOStarFinder(threshold=1.0 * unit if unit is not None else 1.0, fwhm=fwhm)
+    finder = DAOStarFinder(threshold=1.0 * mag * unit if unit is not None else 1.0 * mag, fwhm=fwhm)
     grouper = SourceGrouper(6.0) if (mode == 'all' or rng.random() < 0.3) else None
     it = IterativePSFPhotometry(psf, 5, finder, grouper=grouper, mode=mode, maxiters=int(rng.choice([1, 2, 3])),
                                 localbkg_estimator=lbe, aperture_radius=4.0)
     data_q = data * unit if unit is not None else data
     case.params = dict(leg='IterativePSFPhotometry', shape=list(shape), nsrc=len(pos) + 1, mode=mode,
-                       unit=str(unit), local_bkg=lbe is not None)
+                       unit=str(unit), local_bkg=lbe is not None, magnitude=mag)
     case.digest = core.arr_digest(data) + core.digest(case.params)
     mech = dict(cls=case.cls, entry='IterativePSFPhotometry', model='cgprf', variant=mode)
     res = it(data_q)
@@ -974,7 +1006,10 @@ def _psfimage(case):
     if rng.random() < 0.5:
         kw['border_size'] = int(rng.integers(0, 4)) if rng.random() < 0.5 else (int(rng.integers(0, 4)),
                                                                                  int(rng.integers(0, 4)))
-    extra = {fn: (10.0, 100.0)} if rng.random() < 0.8 else {}
+    ax = np.random.default_rng(int(rng.integers(0, 2 ** 62)))
+    mag = draw_magnitude(ax)
+    case.note('axis_magnitude_not_1' if mag != 1.0 else 'axis_none_plain_case')
+    extra = {fn: (10.0 * mag, 100.0 * mag)} if rng.random() < 0.8 else {}
     for p, r in others.items():
         if r is not None and rng.random() < 0.5:
             extra[p] = r
